@@ -264,7 +264,18 @@ func (e *ExprEqual) String() string {
 }
 
 func (e *ExprEqual) cacheKey() uint64 {
-	return getValueIndex(e.Column, e.Value)
+	// The cache key must not be the storage key from getValueIndex: that one
+	// joins column and value with a NUL byte, so ("a", "\x00") and ("a\x00", "")
+	// get the same key, and a query on the non-existing column "a\x00" would be
+	// answered from the cache entry of the other comparison (or of an operator
+	// node above it) instead of being rejected. The column length makes the
+	// encoding unambiguous.
+	buf := make([]byte, 0, 8+len(e.Column)+len(e.Value))
+	buf = binary.BigEndian.AppendUint64(buf, uint64(len(e.Column)))
+	buf = append(buf, e.Column...)
+	buf = append(buf, e.Value...)
+
+	return xxhash.Sum64(buf)
 }
 
 type ExprNot struct {
